@@ -2,6 +2,7 @@ package main
 
 import (
 	"flag"
+	"runtime/pprof"
 	"golang.org/x/tools/go/ssa"
 	"fmt"
 	"os"
@@ -22,6 +23,13 @@ func usage() {
 func main() {
 	if len(os.Args) < 2 {
 		usage()
+	}
+	if pf := os.Getenv("LVC_PROF"); pf != "" {
+		f, err := os.Create(pf)
+		if err == nil {
+			_ = pprof.StartCPUProfile(f)
+			defer pprof.StopCPUProfile()
+		}
 	}
 	switch os.Args[1] {
 	case "verify":
